@@ -82,6 +82,7 @@ type Req struct {
 	Host        string                        // registry name, hostname and mirrors will be looked up from host configuration
 	Method      string                        // http method to call
 	DirectURL   *url.URL                      // url to query, overrides repository, path, and query
+	DirectAuth  bool                          // the host of DirectURL was named by the registry itself (upload location) and may request this registry's credentials
 	Repository  string                        // repository to scope the request
 	Path        string                        // path of the request within a repository
 	Query       url.Values                    // url query parameters
@@ -442,7 +443,11 @@ func (resp *Resp) next() error {
 				switch statusCode {
 				case http.StatusUnauthorized:
 					// if auth can be done, retry same host without delay, otherwise drop/backoff
-					if hAuth != nil {
+					if hAuth != nil && !req.DirectAuth && resp.resp.Request != nil && resp.resp.Request.URL.Host != h.config.Hostname {
+						// only the registry itself may ask for this registry's credentials, never a
+						// redirect target, an external layer URL or another host's page link
+						err = fmt.Errorf("authentication requested by %s is not answered with credentials of %s%.0w", resp.resp.Request.URL.Host, h.config.Name, errs.ErrHTTPUnauthorized)
+					} else if hAuth != nil {
 						err = hAuth.HandleResponse(resp.resp)
 					} else {
 						err = fmt.Errorf("authentication handler unavailable")
